@@ -69,7 +69,7 @@ def corpus(part):
 # ---------------------------------------------------------------------------------------------------------
 def fmt_correspondence(ctx):
     cs = [(k, w, p, float.fromhex(x) if isinstance(x, str) else x) for k, w, p, x in corpus('fmt')[0]['cases']] if corpus('fmt') else []
-    cs += c09fmt.cases(ctx.rng, ctx.n(2500, 40000))
+    cs += c09fmt.cases(ctx.rng, ctx.n(2000, 40000))
     terms = [c09fmt.eq_term(k, w, p, x, c09fmt.python(k, w, p, x)) for k, w, p, x in cs]
     bad = c09fmt.kernel_bools(ctx, 'fmt', ['Model.Fmt'], terms)
     ctx.count('format-vs-cpython', evaluations=len(cs), nontrivial_keys=[(k, w, p, repr(x)) for k, w, p, x in cs],
@@ -181,31 +181,37 @@ def unit_override_lines(i):
     return ''.join(f'Units:{n}, {u}\n' for n, u in dict(picks).items())
 
 
+# near-duplicates of other shipped examples as far as the report writer is concerned: thorough tier only
+QUICK_SKIP = {'Fervo_Project_Cape-2.txt', 'Fervo_Project_Cape-3.txt', 'example_SHR-2.txt', 'example_overpressure2.txt',
+              'example_multiple_gradients-2.txt', 'example_PTC.txt', 'example9.txt', 'example1_outputunits.txt'}
+
+
 def build_inputs(ctx):
-    """[(name, input text)]: shipped examples, every end-use x plant x economic-model cell, lifetime / construction-year /
-    time-step sweeps, random configurations, runs with output-unit overrides."""
+    """[(name, input text)]: corpus, shipped examples, every end-use x plant cell (x economic model in the thorough tier),
+    lifetime / construction-year / time-step sweeps, random configurations, runs with output-unit requests."""
     rnd = ctx.rng
     out = [(c['name'], c['input']) for c in corpus('report')]
-    out += [(n, t) for n, t in configs.example_texts(ctx, slow=not ctx.quick)]
+    out += [(n, t) for n, t in configs.example_texts(ctx, slow=not ctx.quick) if not (ctx.quick and n in QUICK_SKIP)]
     ex1 = dict(configs.example_texts(ctx)).get('example1.txt', '')
-    for i in range(ctx.n(4, 24)):
-        out.append((f'example1+units{i}', ex1 + '\n' + unit_override_lines(i)))
+    for i in range(ctx.n(2, 24)):
+        out.append((f'example1+units{i}', ex1 + '\n' + unit_override_lines(i + 1)))
     if ctx.quick:   # every end-use x plant cell once, economic model rotating; then random configurations
         cells = [(eu, pl) for eu in configs.ENDUSES for pl in (configs.ELEC_PLANTS if eu != 2 else configs.HEAT_PLANTS)]
         ps = [configs.synthetic(rnd, enduse=eu, plant=pl, econ=1 + j % 3, resmodel=rnd.choice([3, 4]),
                                 life=rnd.choice([2, 5, 10, 20, 25]), tspy=rnd.choice([1, 2, 4])) for j, (eu, pl) in enumerate(cells)]
-        ps += configs.grid(ctx, 16, cover_cells=False)
+        ps += configs.grid(ctx, 6, cover_cells=False)
+        sweep = [(1, 1), (1, 14), (2, rnd.randint(2, 13)), (3, rnd.randint(2, 13)), (7, 1), (30, rnd.randint(2, 13)), (100, 1),
+                 (100, rnd.randint(2, 14))]
     else:
         ps = configs.grid(ctx, 600)
+        sweep = [(life, cy) for life in (1, 2, 3, 4, 5, 7, 10, 20, 30, 40, 50, 75, 100) for cy in (1, 2, 3, 5, 8, 14)]
     for i, p in enumerate(ps):
         out.append((f'grid{i}', runner.params_to_text(p)))
-    lives = [1, 2, 3, 7, 30, 100] if ctx.quick else [1, 2, 3, 4, 5, 7, 10, 20, 30, 40, 50, 75, 100]
-    for life in lives:
-        for cy in ([1, rnd.randint(2, 14)] if ctx.quick else [1, 2, 3, 5, 8, 14]):
-            tspy = rnd.choice([1, 2, 4, 12]) if life < 60 else rnd.choice([1, 2])
-            p = configs.synthetic(rnd, resmodel=4, life=life, cy=cy, tspy=tspy, addons=False)
-            out.append((f'sweep-life{life}-cy{cy}-tspy{tspy}', runner.params_to_text(p)))
-    for i in range(ctx.n(6, 60)):
+    for life, cy in sweep:
+        tspy = rnd.choice([1, 2, 4, 12]) if life < 60 else rnd.choice([1, 2])
+        p = configs.synthetic(rnd, resmodel=4, life=life, cy=cy, tspy=tspy, addons=False)
+        out.append((f'sweep-life{life}-cy{cy}-tspy{tspy}', runner.params_to_text(p)))
+    for i in range(ctx.n(4, 60)):
         p = configs.synthetic(rnd, resmodel=rnd.choice([3, 4]), addons=False)
         out.append((f'units{i}', runner.params_to_text(p) + unit_override_lines(i)))
     return out
@@ -264,6 +270,14 @@ def check_run(ctx, spec, nodes, name, text, r, col, stats):
                             inp={'part': 'report', 'name': name, 'input': text}, expected=rec['n'], observed=len(rows))
             else:
                 col.add(rep.table_term(rec, rows), origin)
+                header = ' '.join(actual[max(0, pos - 4):pos])      # a converted column needs its unit in the table header
+                for src in rec['srcs']:
+                    for q in (R.roots(src) if simple_figure(src) else []):
+                        cur, pref = q.rec.get('cur'), q.rec.get('pref')
+                        if cur != pref and q.rec.get('k') == 'out' and f'({cur})' not in header:
+                            ctx.violate('property', f'table-header-unit:{origin["label"]}:{q.Name}',
+                                        f'{name}: the column of {q.Name} in {origin["label"]} holds values in {cur!r} but the header does not say so',
+                                        inp={'part': 'report', 'name': name, 'input': text}, expected=f'({cur})', observed=header[-200:])
                 stats['cells'] += rec['n'] * (len(rec['cols']) + 1)
                 stats['tables'] += 1
             pos += rec['n']
